@@ -1,8 +1,9 @@
 #!/bin/bash
-# Parallel version of run_seeded.sh: scripts/run_seeded_par.sh [tier] [jobs] ; always runs every seed and rewrites seeded/RESULTS.md
+# Parallel version of run_seeded.sh: scripts/run_seeded_par.sh [tier] [jobs] [pattern] ; runs every seed (or those whose id
+# matches the grep pattern, keeping the other seeds' last lines) and rewrites seeded/RESULTS.md
 cd "$(dirname "$(readlink -f "$0")")/.."
-tier=${1:-quick}; jobs=${2:-4}
-L=out/logs/seeded-lines; rm -rf $L; mkdir -p $L
+tier=${1:-quick}; jobs=${2:-4}; pat=${3:-}
+L=out/logs/seeded-lines; [ -z "$pat" ] && rm -rf $L; mkdir -p $L
 one() {
   id=$1; tier=$2; d=seeded/$id; [ -f $d/patch.diff ] || exit 0
   prop=$(python3 -c "import json,sys;print(json.load(open(sys.argv[1]))['property'])" $d/meta.json)
@@ -19,7 +20,7 @@ one() {
   cat out/logs/seeded-lines/$id
 }
 export -f one
-ls seeded | grep -v RESULTS.md | xargs -P $jobs -I{} bash -c "one {} $tier"
+ls seeded | grep -v RESULTS.md | grep -e "$pat" | xargs -P $jobs -I{} bash -c "one {} $tier"
 out=seeded/RESULTS.md
 { echo "# Seeded changes vs registered checks"; echo; echo "Regenerate with \`scripts/run_seeded_par.sh [tier] [jobs]\` (or \`scripts/run_seeded.sh [tier] [ids]\` for some). caught = the check exits 1 with a VIOLATION line on the tree with the change applied."; echo; echo "| seed | property | tier | caught by (first clause) |"; echo "|---|---|---|---|"; cat $L/* | sort; } > $out
 echo "TOTAL $(ls $L | wc -l) MISSED $(grep -l MISSED $L/* 2>/dev/null | wc -l)"
